@@ -8,8 +8,10 @@
 
    Threads are identified (a list); each has a program counter, a flag "holds the mutex",
    the remaining client program (a list of API calls) and the results of its TryLock calls.
-   The SAME function [step] drives the theorems (Proofs/TmutexP.v), the correspondence run
-   (Corr/C18.v) and hence the schedules of the Go harness.
+   The SAME function [step] is what the theorems (Proofs/TmutexP.v) are about and what the
+   correspondence run (Corr/C18.v) executes on every schedule the Go harness drove the real code
+   through (the harness picks among the goroutines enabled in the real state; the model must agree
+   step by step, including on which goroutines are blocked at the end).
 
    Client contract (explicit): Unlock is issued only by the goroutine that holds the mutex, and
    a goroutine that holds the mutex does not call Lock (it would wait for itself).  The harness
